@@ -337,6 +337,22 @@ func ruleC19Pos(c *ctx.Ctx, r *core.Reporter) {
 	if tb := c.FuncDecl("compiler", "funcContext.translateBranchingStmt"); tb != nil {
 		r.Check(strings.Contains(nodeString(c, tb.Body), "fc.SetPos(clause.Pos())"), "branch-clauses:SetPos", c.Pos(tb.Pos()), "each case clause sets its own position before its code")
 	}
+	// synthetic identifiers stand for the objects they refer to — also in the source map: the statements the
+	// compiler builds itself (package-level initialisers, the calls of init and main) get their position
+	// from the identifier of the object
+	if ni := c.FuncDecl("compiler", "funcContext.newIdentFor"); ni != nil {
+		obj := firstParamName(ni)
+		ok := false
+		for _, m := range findGoPattern(ni.Body, `µid.NamePos = µo.Pos()`) {
+			if m.Env["µo"] == obj && len(enclosingIfs(ni.Body, m.Node.Pos())) == 0 {
+				ok = true
+			}
+		}
+		r.Check(ok, "newIdentFor:carries-object-position", c.Pos(ni.Pos()), "an identifier synthesised for an object is positioned at the object's declaration, so synthesised statements (variable initialisers, init and main calls) are mapped")
+	} else {
+		r.Undecided("newIdentFor:carries-object-position", "compiler/utils.go", "funcContext.newIdentFor not found")
+	}
+
 }
 
 func ruleC19Filter(c *ctx.Ctx, r *core.Reporter) {
